@@ -103,6 +103,11 @@ class Check:
             m = re.match(r'^mockfn OutMock::(\w+) inputs=.*? kind=(\S+) answer=', l)
             if m:
                 kinds[m.group(1)] = kind_sexpr(m.group(2))
+        # from the declared return types alone (no model, no macro): methods all of whose `Tok` leaves are borrowed
+        all_borrowed = {}
+        for mm in re.finditer(r'fn (\w+)(?:<[^>]*>)?\((?:&self|&\'s self)\) -> ([^;]+);', src):
+            ty = mm.group(2)
+            all_borrowed[mm.group(1)] = len(re.findall(r'\bTok\b', ty)) == len(re.findall(r"&(?:'\w+ )?Tok\b", ty))
         r = subprocess.run([OUTPUTS], capture_output=True, text=True, timeout=600)
         cases = []
         for l in r.stdout.split('\n'):
@@ -122,6 +127,8 @@ class Check:
             exp = (model.get(f"c{i}", ['?'])[0]).split(' ')
             if got[0] != val:
                 spec_bad.append((meth, path, val, outs, f"first observed value `{got[0]}` is not the configured `{val}`"))
+            elif all_borrowed.get(meth) and any(g != val for g in got):
+                spec_bad.append((meth, path, val, outs, f"every leaf of the declared return type of `{meth}` is borrowed from self, yet the value was not returned on every call: {outs}"))
             elif path != 'once' and any(g != val for g in got):
                 spec_bad.append((meth, path, val, outs, f"a response configured for repeated use did not reproduce the value on every call: {outs}"))
             elif got != exp:
